@@ -93,6 +93,15 @@ Proof. exact order_is_last_access. Qed.
 Check C05_order_of_last_access : forall E VS, 0 < E -> VS <= E -> forall h s, Hist E VS h s ->
   StronglySorted (fun a b => (last_access h a < last_access h b)%nat) (kids (ents s)) /\ forall q, In q (kids (ents s)) -> (0 < last_access h q)%nat.
 
+(* peek_lru / peek_mru in the same terms: after any history the entry at the least-recently-used end (what peek_lru shows, what is
+   evicted first) is the one whose last access is the oldest, the entry at the other end (peek_mru) the one whose last access is the newest *)
+Theorem C05_lru_end_is_oldest_access : forall E VS, 0 < E -> VS <= E -> forall h s e r, Hist E VS h s -> ents s = e :: r ->
+  forall q, In q (kids r) -> (last_access h (kid (ek e)) < last_access h q)%nat.
+Proof. exact lru_is_least_recently_accessed. Qed.
+Theorem C05_mru_end_is_newest_access : forall E VS, 0 < E -> VS <= E -> forall h s l e, Hist E VS h s -> ents s = l ++ [e] ->
+  forall q, In q (kids l) -> (last_access h q < last_access h (kid (ek e)))%nat.
+Proof. exact mru_is_most_recently_accessed. Qed.
+
 (* every reachable state has a history, also at pointer level: the statement is about every state of the heap-of-nodes model *)
 Theorem C05_history_pointer_level : forall E VS, 0 < E -> VS <= E -> forall b, ReachB E VS b ->
   exists h, Hist E VS h (absB b) /\ StronglySorted (by_last_access h) (kids (ents (absB b))).
@@ -135,3 +144,5 @@ Print Assumptions C05_lru_is_head.
 Print Assumptions C05_pointer_level_iteration.
 Print Assumptions C05_order_of_last_access.
 Print Assumptions C05_history_pointer_level.
+Print Assumptions C05_lru_end_is_oldest_access.
+Print Assumptions C05_mru_end_is_newest_access.
